@@ -23,14 +23,25 @@ def model_inputs(kr):
     return C, err, F, E
 
 
-def correspondence(ctx):
-    rng = np.random.RandomState(ctx.seed + 505)
+def correspondence(ctx, on_data=False):
+    rng = np.random.RandomState(ctx.seed + (606 if on_data else 505))
     N = ctx.scale(60, 600)
     ops, meta = [], []
     dist = {}
     samples = []
     for t in range(N):
         cfg = kc.gen_config(rng)
+        if on_data:   # C06: targets on (a shuffled subset of) the conditioning points, plus one free point
+            if cfg["variant"] == "ExtDrift":
+                k = cfg["cond_pos"].shape[1]
+                sel = rng.permutation(k)[: max(1, k // 2)]
+                cfg["pos"] = cfg["cond_pos"][:, sel].copy()
+                cfg["ext"] = (cfg["ext"][0], cfg["ext"][0][:, sel].copy())
+            else:
+                k = cfg["cond_pos"].shape[1]
+                sel = rng.permutation(k)[: max(1, k // 2)]
+                cfg["pos"] = np.hstack([cfg["cond_pos"][:, sel], cfg["pos"][:, :1]])
+            cfg["chunk"] = None if rng.rand() < 0.5 else int(rng.randint(1, 4))
         cap, store = [], []
         try:
             with warnings.catch_warnings():
@@ -141,10 +152,30 @@ def direct_solve(kr, cfg, pos):
     return z @ W, np.maximum(model.sill - np.einsum("ij,ij->j", k, W), 0), cond
 
 
+def probe_d16():
+    """corpus: lat-lon universal kriging with longitudes beyond 180 degrees (finding D16)"""
+    import gstools as gs
+    rng = np.random.RandomState(16)
+    lat = rng.uniform(-30, 30, 10)
+    lon = rng.uniform(151, 196, 10)
+    val = 0.1 * lon + rng.randn(10) * 0.1
+    model = gs.Gaussian(latlon=True, len_scale=500, geo_scale=gs.KM_SCALE)
+    with warnings.catch_warnings():
+        warnings.simplefilter("ignore")
+        uk = gs.krige.Universal(model, (lat, lon), val, "linear")
+        f, v = uk((lat, lon))
+    err = float(np.max(np.abs(f - val)))
+    if err > 1e-6:
+        return [{"key": "krige:latlon-drift-wrapped-longitude",
+                 "what": f"Universal lat-lon kriging misses its own data by {err:.3g} when longitudes exceed 180",
+                 "case": dict(lat=lat.tolist(), lon=lon.tolist(), val=val.tolist())}]
+    return []
+
+
 def search(ctx, deep=False):
     rng = np.random.RandomState(ctx.seed + 55)
     N = ctx.scale(40, 400) * (3 if deep else 1)
-    viol, ev = [], 0
+    viol, ev = probe_d16(), 1
     for t in range(N):
         cfg = kc.gen_config(rng)
         try:
